@@ -90,8 +90,187 @@ let proc kind h t f chunks =
     | Rename (a, b) -> "R." ^ i a ^ "." ^ i b
     | Unlink a -> "U." ^ i a) ops)
 
+
+(* ------------------------------------------------------------------ records *)
+(* JSON values travel as a prefix token stream:
+     n | t | f | i<dec> | d<mantissa>:<exp> | s<hex> | a<count> v.. | o<count> (s<hex> v)..   *)
+open PersistRec
+
+let rec parse_jv (toks : string list) : jv * string list =
+  match toks with
+  | [] -> failwith "jv: eof"
+  | t :: rest ->
+    let body = Stdlib.String.sub t 1 (Stdlib.String.length t - 1) in
+    (match t.[0] with
+     | 'n' -> (JNull, rest)
+     | 't' -> (JBool true, rest)
+     | 'f' -> (JBool false, rest)
+     | 'i' -> (JInt (z_of_dec body), rest)
+     | 'd' -> (match split ':' body with
+               | [m; e] -> (JFlt (z_of_dec m, nat_of_int (int_of_string e)), rest)
+               | _ -> failwith "jv: float")
+     | 's' -> (JStr (bytes_of_hex body), rest)
+     | 'a' ->
+       let n = int_of_string body in
+       let rec go k acc toks = if k = 0 then (Stdlib.List.rev acc, toks) else
+           let (v, toks') = parse_jv toks in go (k - 1) (v :: acc) toks' in
+       let (l, rest') = go n [] rest in (JArr l, rest')
+     | 'o' ->
+       let n = int_of_string body in
+       let rec go k acc toks = if k = 0 then (Stdlib.List.rev acc, toks) else
+           match parse_jv toks with
+           | (JStr key, toks') -> let (v, toks'') = parse_jv toks' in go (k - 1) ((key, v) :: acc) toks''
+           | _ -> failwith "jv: key" in
+       let (l, rest') = go n [] rest in (JObj l, rest')
+     | _ -> failwith ("jv: token " ^ t))
+
+let rec show_jv (b : Buffer.t) (v : jv) : unit =
+  let add s = Buffer.add_char b ' '; Buffer.add_string b s in
+  match v with
+  | JNull -> add "n" | JBool true -> add "t" | JBool false -> add "f"
+  | JInt z -> add ("i" ^ dec_of_z z)
+  | JFlt (m, e) -> add ("d" ^ dec_of_z m ^ ":" ^ string_of_int (int_of_nat e))
+  | JStr s -> add ("s" ^ hex_of_bytes s)
+  | JArr l -> add ("a" ^ string_of_int (Stdlib.List.length l)); Stdlib.List.iter (show_jv b) l
+  | JObj l -> add ("o" ^ string_of_int (Stdlib.List.length l));
+    Stdlib.List.iter (fun (k, v) -> add ("s" ^ hex_of_bytes k); show_jv b v) l
+let jv_str v = let b = Buffer.create 256 in show_jv b v; Buffer.contents b
+
+let str (s : string) : coq_N list = Stdlib.List.init (Stdlib.String.length s) (fun i -> n_of_int (Char.code s.[i]))
+let jstr s = JStr (str s)
+let ckeys = [ ("type", K_type); ("iid", K_iid); ("perms", K_perms); ("format", K_format); ("value", K_value);
+              ("ev", K_ev); ("description", K_description); ("unit", K_unit); ("minValue", K_minValue);
+              ("maxValue", K_maxValue); ("minStep", K_minStep); ("maxLen", K_maxLen);
+              ("valid-values", K_valid_values); ("handle", K_handle);
+              ("broadcast_events", K_broadcast_events); ("disconnected_events", K_disconnected_events) ]
+let ckeys_b = Stdlib.List.map (fun (s, k) -> (str s, k)) ckeys
+let ckey_name k = fst (Stdlib.List.find (fun (_, k') -> k' = k) ckeys)
+
+exception Unmodelled of string
+
+let cdict_of (v : jv) : cdict = match v with
+  | JObj kv -> Stdlib.List.filter_map (fun (k, v) ->
+      match Stdlib.List.assoc_opt k ckeys_b with Some ck -> Some (ck, v) | None -> None) kv
+  | _ -> raise (Unmodelled "characteristic is not an object")
+let get k kv = Stdlib.List.assoc_opt (str k) kv
+let sdict_of (v : jv) : sdict = match v with
+  | JObj kv ->
+    { sd_iid = get "iid" kv; sd_type = get "type" kv;
+      sd_chars = (match get "characteristics" kv with
+          | None -> None | Some (JArr l) -> Some (Stdlib.List.map cdict_of l)
+          | Some _ -> raise (Unmodelled "characteristics is not a list"));
+      sd_linked = (match get "linked" kv with
+          | None -> None | Some (JArr l) -> Some l | Some _ -> raise (Unmodelled "linked is not a list")) }
+  | _ -> raise (Unmodelled "service is not an object")
+let adict_of (v : jv) : adict = match v with
+  | JObj kv ->
+    { ad_aid = get "aid" kv;
+      ad_services = (match get "services" kv with
+          | None -> None | Some (JArr l) -> Some (Stdlib.List.map sdict_of l)
+          | Some _ -> raise (Unmodelled "services is not a list")) }
+  | _ -> raise (Unmodelled "accessory is not an object")
+let adicts_of = function JArr l -> Stdlib.List.map adict_of l | _ -> raise (Unmodelled "accessories is not a list")
+
+let jv_of_cdict (d : cdict) : jv = JObj (Stdlib.List.map (fun (k, v) -> (str (ckey_name k), v)) d)
+let opt k o = match o with Some v -> [ (str k, v) ] | None -> []
+let jv_of_sdict (d : sdict) : jv =
+  JObj (opt "iid" d.sd_iid @ opt "type" d.sd_type
+        @ (match d.sd_chars with Some l -> [ (str "characteristics", JArr (Stdlib.List.map jv_of_cdict l)) ] | None -> [])
+        @ (match d.sd_linked with Some l -> [ (str "linked", JArr l) ] | None -> []))
+let jv_of_adict (d : adict) : jv =
+  JObj (opt "aid" d.ad_aid
+        @ (match d.ad_services with Some l -> [ (str "services", JArr (Stdlib.List.map jv_of_sdict l)) ] | None -> []))
+
+(* object dumps: every modelled attribute, None as null *)
+let jo o = match o with Some v -> v | None -> JNull
+let dump_chr (c : chr) : jv =
+  JObj [ (str "type", JStr c.c_type); (str "iid", c.c_iid);
+         (str "perms", JArr (Stdlib.List.map (fun p -> JStr p) c.c_perms));
+         (str "format", jo c.c_format); (str "value", jo c.c_value); (str "description", jo c.c_desc);
+         (str "unit", jo c.c_unit); (str "minValue", jo c.c_min); (str "maxValue", jo c.c_max);
+         (str "minStep", jo c.c_step); (str "valid_values", jo c.c_valid); (str "handle", jo c.c_handle);
+         (str "broadcast_events", jo c.c_bcast); (str "disconnected_events", jo c.c_disc) ]
+let dump_svc (s : svc) : jv =
+  JObj [ (str "iid", s.s_iid); (str "type", JStr s.s_type); (str "linked", JArr s.s_linked);
+         (str "characteristics", JArr (Stdlib.List.map dump_chr s.s_chars)) ]
+let dump_acc (a : acc) : jv = JObj [ (str "aid", a.a_aid); (str "services", JArr (Stdlib.List.map dump_svc a.a_services)) ]
+let dump_accs l = JArr (Stdlib.List.map dump_acc l)
+
+(* normalize_uuid is applied by the harness (independent reference); "!" marks a rejected value *)
+let norm (s : coq_N list) : coq_N list option =
+  match s with x :: _ when int_of_n x = 33 -> None | _ -> Some s
+
+let tab_of (t : jv) : coq_N list -> ctab =
+  let entries = match t with JObj kv -> kv | _ -> [] in
+  fun ty ->
+    match Stdlib.List.assoc_opt ty entries with
+    | Some (JObj kv) ->
+      let g k = match get k kv with Some JNull | None -> None | Some v -> Some v in
+      { t_format = g "format"; t_desc = g "description"; t_unit = g "unit";
+        t_min = g "min_value"; t_max = g "max_value"; t_step = g "min_step" }
+    | _ -> { t_format = None; t_desc = None; t_unit = None; t_min = None; t_max = None; t_step = None }
+
+let res_str f = function
+  | Res.Ok a -> "ok" ^ f a | Res.Err _ -> "err" | Res.Crash -> "crash" | Res.OutOfFuel -> "fuel"
+
+(* rt <table> <accessories>: from_list, serialize, from_list again *)
+let rt toks =
+  let (t, rest) = parse_jv toks in
+  let (a, _) = parse_jv rest in
+  let tbl = tab_of t in
+  match accs_from norm tbl (adicts_of a) with
+  | Res.Ok accs ->
+    let ser = accs_to accs in
+    let again = accs_from norm tbl ser in
+    "ok" ^ jv_str (dump_accs accs) ^ " ;" ^ jv_str (JArr (Stdlib.List.map jv_of_adict ser)) ^ " ; "
+    ^ res_str (fun l -> jv_str (dump_accs l)) again
+  | r -> res_str (fun _ -> "") r
+
+(* entry <table> <cache entry>: _load_accessories_from_cache, then _update_accessories_state_cache *)
+let entry toks =
+  let (t, rest) = parse_jv toks in
+  let (e, _) = parse_jv rest in
+  let tbl = tab_of t in
+  let kv = match e with JObj kv -> kv | _ -> raise (Unmodelled "cache entry is not an object") in
+  let nonnull k = match get k kv with Some JNull | None -> None | Some v -> Some v in
+  let ce = { e_config = get "config_num" kv;
+             e_accs = (match get "accessories" kv with None -> None | Some v -> Some (adicts_of v));
+             e_bkey = nonnull "broadcast_key"; e_state = nonnull "state_num" } in
+  match entry_load norm tbl ce with
+  | Res.Ok st ->
+    let back = entry_save st in
+    let dump = JObj [ (str "config_num", st.st_config);
+                      (str "broadcast_key", (match st.st_bkey with Some k -> JStr (str (if k = [] then "" else hex_of_bytes k)) | None -> JNull));
+                      (str "state_num", jo st.st_state); (str "accessories", dump_accs st.st_accs) ] in
+    let saved = JObj [ (str "config_num", jo back.e_config);
+                       (str "accessories", (match back.e_accs with Some l -> JArr (Stdlib.List.map jv_of_adict l) | None -> JNull));
+                       (str "broadcast_key", jo back.e_bkey); (str "state_num", jo back.e_state) ] in
+    "ok" ^ jv_str dump ^ " ;" ^ jv_str saved
+  | r -> res_str (fun _ -> "") r
+
+(* pairs <pairing file as object alias -> object> *)
+let pairs toks =
+  let (f, _) = parse_jv toks in
+  let pf = match f with
+    | JObj kv -> Stdlib.List.map (fun (a, d) -> match d with
+        | JObj pd -> (a, pd) | _ -> raise (Unmodelled "pairing is not an object")) kv
+    | _ -> raise (Unmodelled "pairing file is not an object") in
+  match load_pairings pf with
+  | None -> "crash"
+  | Some l -> "ok" ^ jv_str (JObj (Stdlib.List.map (fun (a, d) -> (a, JObj d)) (save_pairings l)))
+
+let hexrt h = match hex_dec (hex_enc (bytes_of_hex h)) with Some b -> "ok " ^ hex_of_bytes b | None -> "none"
+let unhex s = match hex_dec (bytes_of_hex s) with Some b -> "ok " ^ hex_of_bytes b | None -> "none"
+
+let guarded f toks = try f toks with Unmodelled m -> "unmodelled " ^ m
+
 let handle = function
   | "sim" :: target :: old :: nw :: nnames :: inits :: ops -> sim target old nw nnames inits ops
   | "proc" :: kind :: h :: t :: f :: chunks -> proc kind h t f chunks
+  | "rt" :: toks -> guarded rt toks
+  | "entry" :: toks -> guarded entry toks
+  | "pairs" :: toks -> guarded pairs toks
+  | ["hexrt"; h] -> hexrt h
+  | ["unhex"; s] -> unhex s
   | _ -> "bad-request"
 let () = main_loop handle
